@@ -236,7 +236,15 @@ def rule_halfopen(run):
                  'layer elevation test is not bottom <= z <= top')
 
 
+def rule_cacheinv(run):
+    run.rule('CACHEINV', 'a value memoised from node positions (lazy `if self.A is None: self.A = ...`) is reset by every function that '
+             'writes node positions (translate, rotate, optimisation, snapping)', floor=1)
+    from .cacheinv import cacheinv_rule
+    cacheinv_rule(run, 'mulgrids')
+
+
 def check(run):
+    run.guarded('CACHEINV', rule_cacheinv)
     run.guarded('DOM', rule_dom)
     run.guarded('HALFOPEN', rule_halfopen)
     run.guarded('PRED', lambda r: rule_pred(r, floor=10))
